@@ -89,8 +89,11 @@ C13(r) ==
                      THEN \E n \in NodeSet(s0) \cup NodeSet(s1) : n.lp = m.lp /\ n.comp = r.ev.opts.fmt /\ n.p # m.p
                      ELSE \E n \in NodeSet(s0) \cup NodeSet(s1) : n.p = m.lp /\ n.p # m.p)
         THEN {"C13.WrongCompression"} ELSE {})
+       \* (not judged when two Manifests of that logical name existed and the written file is a new name:
+       \* which of the two it continues cannot be told from the states)
        \cup (IF \E m \in wr : \E x \in before(m) :
-                   x.comp # "plain" /\ m.comp # "plain" /\ x.comp # m.comp
+                   /\ x.comp # "plain" /\ m.comp # "plain" /\ x.comp # m.comp
+                   /\ (x.p = m.p \/ Cardinality({ y \in MfSet(s0) : y.ok /\ y.lp = m.lp }) < 2)
              THEN {"C13.FormatChanged"} ELSE {})
        \cup (IF \E m \in wr : m.comp # "plain" /\ m.comp # r.ev.opts.fmt
                    /\ \A x \in before(m) : x.comp = "plain"
